@@ -120,6 +120,7 @@ _RE_STATS = re.compile(r"(\d+) states generated, (\d+) distinct states found, (\
 _RE_DEPTH = re.compile(r"The depth of the complete state graph search is (\d+)")
 _RE_INV = re.compile(r"Invariant (\S+) is violated")
 _RE_PROP = re.compile(r"(Temporal properties were violated|Action property (\S+) is violated|Deadlock reached)")
+_RE_TPROP = re.compile(r"Temporal property (\S+) was violated")
 _RE_REPLAY = re.compile(r'^<<"REPLAY", "(.*)">>$')
 _RE_COV = re.compile(r"^<(\w+) line (\d+), col (\d+) to line (\d+), col (\d+) of module (\w+)(?: \([\d ]+\))?>: (\d+):(\d+)")
 
@@ -185,6 +186,9 @@ def tlc(module, cfg, pid, workers=8, timeout=900, simulate=None, depth=None, cov
         m = _RE_PROP.search(line)
         if m and not res["violated"]:
             res["violated"] = m.group(2) or m.group(1)
+        m = _RE_TPROP.search(line)
+        if m and not res["violated"]:
+            res["violated"] = m.group(1)
         if coverage:
             m = _RE_COV.match(line)
             if m:
